@@ -892,6 +892,18 @@ func verifC31Reset(sc *verifC31Scn) {
 	for i := 0; i < rounds; i++ {
 		s := sc.prim()
 		l := sc.lisOf(s)
+		if sc.rnd.Intn(3) == 0 {
+			// the connection dies while a batch is held before the write and the write slice
+			// fills up behind it: the rest of the batch must still go out first
+			sc.setGate(s, true)
+			sc.burst(40+sc.rnd.Intn(100), true)
+			sc.waitParked(s)
+			sc.burst(150+sc.rnd.Intn(100), true)
+			l.resetCurrent()
+			sc.setGate(s, false)
+			sc.quiesce(1, 2)
+			continue
+		}
 		if sc.rnd.Intn(2) == 0 {
 			l.mu.Lock()
 			for _, u := range l.conns {
